@@ -264,7 +264,9 @@ def stable_name(prog, k):
         for (ty, tr, me), kk in prog.impl.items():
             if kk == k: return '<%s%s>' % (ty, (' as ' + tr) if tr else '')
         return '<impl>'
-    return re.sub(r'<impl at [^>]*>', rep, name)
+    name = re.sub(r'<impl at [^>]*>', rep, name)
+    name = re.sub(r'<None as parser! \{.*\}>', '<grammar>', name, flags=re.S)       # functions generated by the peg macro carry the grammar text in their path
+    return name if len(name) <= 240 else name[:200] + '...' + name[-30:]
 
 
 # ------------------------------------------------------------------ parallel exploration helpers
